@@ -801,3 +801,72 @@ Theorem C15_link_rel_first_string_refuted :
     next_request (mkCfg KTags 0 0 []) base (b "<?last=b>; rel=""next""") = NNext (b "/v2/r/tags/list") (b "last=b").
 Proof. exact link_rel_first_string_refuted. Qed.
 Print Assumptions C15_link_rel_first_string_refuted.
+
+(* exactly once with the link hypotheses only for requests satisfying an invariant *)
+Theorem C15_exactly_once_inv :
+  forall (L : list item) (cap : nat) (ds : nat -> decision)
+         (render : nat -> url -> url -> str) (trailer : nat -> str)
+         (resolve : url -> str -> option url) (c : cfg) (cu : cursor) (npath : nat -> str -> str) (vis : item -> bool)
+         (InvQ : url -> Prop) (path last0 : str) (fuel : nat),
+    cursor_ok cu ->
+    c_kind c <> KReferrers ->
+    NoDup (map fst L) -> (forall it, In it L -> fst it <> []) ->
+    (forall i base x, InvQ base -> In x (map fst L) ->
+       contains c_gt (render i base (link_target ds cu npath i base x)) = false) ->
+    (forall i base x, InvQ base -> In x (map fst L) ->
+       resolve base (render i base (link_target ds cu npath i base x)) = Some (link_target ds cu npath i base x)) ->
+    (forall i base x, InvQ base -> In x (map fst L) ->
+       InvQ (mk_request c (link_target ds cu npath i base x) [])) ->
+    InvQ (mk_request c (mkUrl path []) last0) ->
+    (forall i, (Z.of_N (d_doc_len (ds i)) <= eff_limit (c_limit c))%Z) ->
+    (length (after last0 L) < fuel)%nat ->
+    let t := loop (reg_serve (c_kind c) cu npath vis L cap ds render trailer) resolve (fun _ => false) c
+                  fuel 0 0 (mkUrl path []) last0 in
+    t_out t = Done /\
+    concat (t_pages t) = filter vis (after last0 L) /\
+    (length (t_reqs t) <= S (length (after last0 L)))%nat.
+Proof. exact listing_exactly_once_inv. Qed.
+Print Assumptions C15_exactly_once_inv.
+
+(* EXACTLY ONCE WITHOUT ABSTRACT net/url: a registry that writes its next links as
+   </path?escaped query> (render_c), the client resolving them with net/url as modelled in
+   Model/PagingUrl.v (resolve_c = resolve_ref + lenient query reading), no page size configured:
+   Tags / Repositories deliver exactly what the registry shows after `last`, once, in order --
+   for every list, split oracle, cap, cursor kind (last or opaque token), shown subset, extra
+   link parameters and start value.  No hypothesis about rendering or resolution is left. *)
+Theorem C15_exactly_once_concrete :
+  forall (sch host P0 : str) (segs0 : list str),
+    clean_path P0 segs0 ->
+    forallb path_char P0 = true ->
+    forallb printable P0 = true ->
+    forall (L : list item) (cap : nat) (ds : nat -> decision)
+           (trailer : nat -> str) (vis : item -> bool) (cu : cursor) (c : cfg),
+    cursor_ok cu ->
+    match cu with
+    | CLast => True
+    | CToken k s => Forall byte_ok k /\ Forall byte_ok s
+    end ->
+    (forall x : str, In x (map fst L) -> Forall byte_ok x) ->
+    (forall i : nat, all_vs (d_extra (ds i)) /\ query_ok (d_extra (ds i))) ->
+    (c_n c <= 0)%Z ->
+    forall (last0 : list N) (fuel : nat),
+    c_kind c <> KReferrers ->
+    NoDup (map fst L) ->
+    (forall it : item, In it L -> fst it <> []) ->
+    Forall byte_ok last0 ->
+    (forall i : nat, (Z.of_N (d_doc_len (ds i)) <= eff_limit (c_limit c))%Z) ->
+    (length (after last0 L) < fuel)%nat ->
+    let t := loop (reg_serve (c_kind c) cu (fun _ p => p) vis L cap ds render_c trailer) (resolve_c sch host)
+                  (fun _ => false) c fuel 0 0 (mkUrl P0 []) last0 in
+    t_out t = Done /\
+    concat (t_pages t) = filter vis (after last0 L) /\
+    (length (t_reqs t) <= S (length (after last0 L)))%nat.
+Proof. exact concrete_exactly_once. Qed.
+Print Assumptions C15_exactly_once_concrete.
+
+Example C15_example_concrete :
+  let t := loop (reg_serve KTags (CToken (b "token") (b "p;")) (fun _ p => p) ex_vis ex_L 1 ex_ds render_c (fun _ => b "; rel=""next"""))
+                (resolve_c (b "http") (b "reg.test")) (fun _ => false) (mkCfg KTags 0 0 []) 6 0 0 (mkUrl exs_path []) (b "a") in
+  t_out t = Done /\ map (map fst) (t_pages t) = [[b "b"]; []; [b "d"]] /\
+  map (fun u => qget (b "token") (u_query u)) (t_reqs t) = [None; Some (VS (b "p;b")); Some (VS (b "p;c"))].
+Proof. vm_compute. repeat split. Qed.
